@@ -439,10 +439,18 @@ def pipe_rule(ctx, r):
         STORE = "core::sync::atomic::Atomic::store"
         LOAD = "core::sync::atomic::Atomic::load"
         hdrs = loop_headers(f)
-        stored = []
+        stored, unstored = [], []
         for bb, te, fe, e in pipe_switches(f):
+            # only tests on the error of one of the BufferWriter::print calls (err_message! has stderr tests of its own)
+            if not any(own_error(e, pc) for pc in f.calls_to("termcolor::BufferWriter::print")):
+                continue
             after = C.reach(f, [te[1]], stop_blocks=hdrs)
-            stored += [x for x in f.calls() if x.bb in after and x.path == STORE]
+            here_ = [x for x in f.calls() if x.bb in after and x.path == STORE]
+            stored += here_
+            if not here_:
+                unstored.append(bb)
+        if unstored:
+            stored = []
         ebo = ExprBuilder(outer)
         loads = cond_switches(outer, lambda e: is_call(e, LOAD), ebo)
         reads_back = False
